@@ -39,6 +39,7 @@ type Prog struct {
 	wholeStore map[*ssa.Function]map[string]bool // struct types wholly overwritten through a non-local pointer
 	extImpure  map[*ssa.Function]bool            // calls (transitively) an external function that is not in the effect-free table
 
+	noExpand  map[*ssa.Function]bool // functions whose (value, error) results keep their call atoms
 	implCache map[string][]*ssa.Function
 	tagLabel  string
 }
